@@ -76,7 +76,8 @@ func reuseVariants(thorough bool) []variant {
 	return out
 }
 
-const r1Source = "os.getpid()\n"
+// R1 also touches the three standard streams: what the os module remembers about them belongs to R1's OS
+const r1Source = "os.getpid()\nos.stdout\nos.stdin\nos.stderr\nos.getpid()\n"
 
 // reuseSources returns R2's main program and module source.
 func reuseSources(v variant, cx string) (main, mod string) {
